@@ -287,6 +287,64 @@ def _is_plain_return(st) -> bool:
     return isinstance(st, ast.Return) and (st.value is None or (isinstance(st.value, ast.Constant) and st.value.value is None))
 
 
+def _fold_continue(stmts):
+    """inside a loop body: `if C: continue` followed by REST   ==   `if not C: REST`; a trailing `continue` is dropped"""
+    stmts = list(stmts)
+    for i, st in enumerate(stmts):
+        if isinstance(st, ast.If) and not st.orelse and len(st.body) == 1 and isinstance(st.body[0], ast.Continue) \
+                and i + 1 < len(stmts):
+            neg = st.test.operand if isinstance(st.test, ast.UnaryOp) and isinstance(st.test.op, ast.Not) \
+                else ast.UnaryOp(op=ast.Not(), operand=st.test)
+            return stmts[:i] + [ast.If(test=neg, body=_fold_continue(stmts[i + 1:]), orelse=[])]
+    if stmts and isinstance(stmts[-1], ast.Continue):
+        stmts = stmts[:-1]
+    return stmts
+
+
+def _inline_helpers(fn: ast.FunctionDef, fns: dict) -> ast.FunctionDef:
+    """`self._helper(a, b)` as a statement, where `_helper` is a private method of the class that is called at exactly
+    one place in the class, takes plain names as arguments and never returns a value: replaced by the helper's body"""
+    calls = {}
+    for f in fns.values():
+        for n in ast.walk(f):
+            if isinstance(n, ast.Call) and isinstance(n.func, ast.Attribute) and isinstance(n.func.value, ast.Name) \
+                    and n.func.value.id == "self" and n.func.attr in fns:
+                calls[n.func.attr] = calls.get(n.func.attr, 0) + 1
+
+    def expand(stmts, depth=0):
+        out = []
+        for st in stmts:
+            if isinstance(st, ast.Expr) and isinstance(st.value, ast.Call) and isinstance(st.value.func, ast.Attribute) \
+                    and isinstance(st.value.func.value, ast.Name) and st.value.func.value.id == "self":
+                name = st.value.func.attr
+                h = fns.get(name)
+                if h is not None and name.startswith("_") and not name.startswith("__") and calls.get(name) == 1 \
+                        and depth < 3 and not h.decorator_list and not st.value.keywords \
+                        and all(isinstance(a, ast.Name) for a in st.value.args) \
+                        and len(st.value.args) == len(h.args.args) - 1 \
+                        and not any(isinstance(n, (ast.Return, ast.Yield, ast.YieldFrom, ast.Await)) and
+                                    getattr(n, "value", None) is not None for n in ast.walk(h)) \
+                        and not any(isinstance(n, ast.Return) for n in ast.walk(h)):
+                    body = [copy.deepcopy(x) for x in _clean(h.body)]
+                    ren = {p_.arg: a.id for p_, a in zip(h.args.args[1:], st.value.args) if p_.arg != a.id}
+                    bound = set(_stores(body))
+                    if not (set(ren.values()) & bound) and not (set(ren) & bound):
+                        tmp = {k: f"__h{i}" for i, k in enumerate(ren)}
+                        body = [_Rename(tmp).visit(x) for x in body]
+                        body = [_Rename({f"__h{i}": v for i, (k, v) in enumerate(ren.items())}).visit(x) for x in body]
+                        out += expand(body, depth + 1)
+                        continue
+            st = copy.deepcopy(st)
+            for field in ("body", "orelse"):
+                if hasattr(st, field) and isinstance(getattr(st, field), list):
+                    setattr(st, field, expand(getattr(st, field), depth))
+            out.append(st)
+        return out
+    new = copy.deepcopy(fn)
+    new.body = expand(new.body)
+    return new
+
+
 def _fold_early_returns(stmts, top=True):
     """`if C: A...; return` followed by B...   ==   `if C: A... else: B...`   (statement level, recursively);
     `if not X: A else: B`  ==  `if X: B else: A`; a trailing bare `return` is dropped"""
@@ -307,7 +365,7 @@ def _fold_early_returns(stmts, top=True):
             if isinstance(st.test, ast.UnaryOp) and isinstance(st.test.op, ast.Not) and st.orelse:
                 st.test, st.body, st.orelse = st.test.operand, st.orelse, st.body
         elif isinstance(st, (ast.For, ast.While)):
-            st.body = _fold_early_returns(st.body, False)
+            st.body = _fold_continue(_fold_early_returns(st.body, False))
         out.append(st)
     if top and out and _is_plain_return(out[-1]):
         out = out[:-1]
@@ -604,7 +662,7 @@ def translate(path=None) -> str:
     guards.sort(key=lambda g: next(i for i, c_ in enumerate(canon) if g == c_ or g.startswith(c_)))
 
     # ---- on_request_missing ----------------------------------------------------------------------------------------
-    txt = _text(normalise(fns["on_request_missing"], ["self", "peer", "request"], sigs))
+    txt = _text(normalise(fns["on_request_missing"], ["self", "peer", "request"], sigs, fold_returns=True))
     m = re.fullmatch(
         r"v0 = b''\n"
         r"for v1, v2 in enumerate\(self\.token_chain\[:self\.permissions\.get\(peer, (\d+)\)\]\):\n"
@@ -700,7 +758,8 @@ def translate(path=None) -> str:
     for cl, cond in (("correct", "v3 and any((v2 in v1 for v2 in v0))"), ("nocorrect", "any((v2 in v1 for v2 in v0))")):
         for rl, rec in (("rec", rec_line), ("norec", "")):
             rd_variants[cl + ":" + rl] = RD.replace("COND", cond).replace("RECORD", rec)
-    rd = pinned(fns["_received_disclosure_for_attest"], ["self", "peer", "disclosure"], rd_variants,
+    rd_fn = _inline_helpers(fns["_received_disclosure_for_attest"], fns)
+    rd = pinned(rd_fn, ["self", "peer", "disclosure"], rd_variants,
                 "_received_disclosure_for_attest")
     sign_needs_correct = rd.startswith("correct")
     pinned(fns["on_attest"], ["self", "peer", "payload"],
@@ -820,7 +879,7 @@ def translate(path=None) -> str:
 
     # ---- does the node record what it attests to? ---------------------------------------------------------------------
     records = False
-    for n in ast.walk(fns["_received_disclosure_for_attest"]):
+    for n in ast.walk(_inline_helpers(fns["_received_disclosure_for_attest"], fns)):
         if isinstance(n, ast.If) and re.fullmatch(r"self\.should_sign\(\w+, (\w+)\.metadata\)", ast.unparse(n.test)):
             cred = re.fullmatch(r"self\.should_sign\(\w+, (\w+)\.metadata\)", ast.unparse(n.test)).group(1)
             direct = [ast.unparse(x) for x in _clean(n.body)]
